@@ -1,2 +1,3 @@
 import AdbProofs.Lemmas.Bytes
 import AdbProofs.Properties.C02
+import AdbProofs.Properties.C19
